@@ -183,7 +183,10 @@ impl TaskLogWriter {
         }))
     }
 
-    pub(super) fn finish(self) -> TaskLogSummary {
+    pub(super) async fn finish(mut self) -> TaskLogSummary {
+        // `tokio::fs::File::write` returns once the bytes are handed to a background write; wait
+        // for it, so that the log holds everything by the time the terminal status is emitted.
+        let _ = self.file.flush().await;
         TaskLogSummary {
             artifact_id: self.artifact_id,
             path: self.rel_path,
